@@ -72,6 +72,8 @@ def decode(d):
         derive = d.choice(["copy", "mul", "abs"])
     else:
         obj = ["image", gen.point(d, c), [abs(c(d)) + 1, abs(c(d)) + 1]]
+        if d.chance(2, 3):
+            obj.append("%d %d %d %d" % (d.int(0, 5), d.int(0, 5), d.int(1, 40), d.int(1, 40)))  # a viewBox attribute
         derive = d.choice(["copy", "mul"])
     muts = []
     for _ in range(d.int(1, 6)):
@@ -145,6 +147,8 @@ def build(obj):
             t.path.stroke = se.Color("green")
         return t
     if fam == "image":
+        if len(obj) > 3:
+            return se.Image(x=obj[1][0], y=obj[1][1], width=obj[2][0], height=obj[2][1], href="nothing.png", viewBox=obj[3])
         return se.Image(x=obj[1][0], y=obj[1][1], width=obj[2][0], height=obj[2][1], href="nothing.png")
     raise core.HarnessError(fam)
 
@@ -214,7 +218,9 @@ def snapshot(x):
     if isinstance(x, se.Text):
         return ("text", x.text, repr(x.x), repr(x.y), snapshot(x.path) if x.path is not None else None, tuple(common))
     if isinstance(x, se.Image):
-        return ("image", repr(x.url), repr(x.x), repr(x.y), repr(x.width), repr(x.height), tuple(common))
+        vb = x.viewbox
+        vb = None if vb is None else (repr(vb.x), repr(vb.y), repr(vb.width), repr(vb.height), repr(vb.preserve_aspect_ratio))
+        return ("image", repr(x.url), repr(x.x), repr(x.y), repr(x.width), repr(x.height), vb, tuple(common))
     raise core.HarnessError("no snapshot for %r" % type(x))
 
 
@@ -446,11 +452,15 @@ def mutate(t, mut):
             t.transform.post_translate(1.0, val)
         return "text:%d" % k
     if isinstance(t, se.Image):
-        k %= 3
+        k %= 5 if t.viewbox is not None else 3
         if k == 0:
             t *= M
         elif k == 1:
             t.x = val
+        elif k == 3:
+            t.viewbox.set_viewbox("1 2 %r 4" % (abs(val) + 1.0))
+        elif k == 4:
+            t.viewbox.width = abs(val) + 2.0
         else:
             t.transform.post_scale(2.0)
         return "image:%d" % k
